@@ -488,6 +488,11 @@ def c13(tier, sc):
     big = tier == "thorough"
     S = vgen.b
     tmpl = xss_templates(80)
+    # attribute-context vectors behind every kind of first byte (the start state of a context shows in how it
+    # treats the very first bytes)
+    noattr = [t for t in tmpl if 60 not in t and len(t) <= 40]
+    firsts = [S(x) for x in ("=", "/", ">", "'", '"', "`", " ", "\x00", "= ", "/ ", "x=", "'=", '"=', "`=", "=>", "\t", "a ")]
+    tmpl = list(vgen.dedup(tmpl + [f + t for f in firsts for t in noattr]))
     cases = xss_props(sc, d, rep, "embed", "embed", S("<>/='\"` a=x!-"), 5 if big else 4, templates=tmpl)
     flat = []
     for c in cases:
